@@ -17,7 +17,7 @@ VERIF = os.path.dirname(os.path.dirname(os.path.abspath(__file__)))
 REPO = os.environ.get('VERIF_REPO', '/repo')
 CACHE = os.environ.get('VERIF_CACHE', '/var/tmp/verif-cache')
 GUARD = 'SQUID_VERIF_HOOKS'
-NCPU = os.cpu_count() or 8
+NCPU = int(os.environ.get('VERIF_JOBS', '6'))   # the box is shared by many checks/agents: stay well below the 16 cores
 TLA_CP = '/opt/veriftools/tla/tla2tools.jar:/opt/veriftools/tla/CommunityModules-deps.jar'
 
 
